@@ -133,11 +133,21 @@ def continuation(run, fem, rep, field, bounds, items, tol, res):
         b.update(b.value * 1.3)
         dof0, dof1 = fem.dof.partition(field, bounds)
         ext0 = fem.dof.apply(field, bounds, dof0)
-        style = rep % 4
+        style = (rep // 2 + len(items) + field[0].region.mesh.ncells) % 3  # the quick tier has rep = 0 only: the problem decides as well
         if style == 0:
             fem.newtonrhapson(items=items, dof0=dof0, dof1=dof1, ext0=ext0, tol=tol, verbose=False)
-        else:
+            run.units["success:continuation:items-only"] += 1
+        elif style == 1:
             fem.tools.newtonrhapson(x0=res.x, items=items, dof0=dof0, dof1=dof1, ext0=ext0, tol=tol, verbose=False)
+            run.units["success:continuation:x0=result"] += 1
+        else:
+            # the documented multi-body form: a top-level container of its own, handed to the items on every evaluation
+            import copy
+            x0 = copy.deepcopy(res.x)
+            r2 = fem.tools.newtonrhapson(x0=x0, items=items, dof0=dof0, dof1=dof1, ext0=ext0, tol=tol, verbose=False)
+            run.units["success:continuation:x0=own-container"] += 1
+            for a, b_ in zip(r2.x.fields, field.fields):
+                b_.values[:] = a.values  # the solves that follow start from the items' own container
         run.units["success:continuation"] += 1
         # back to exactly zero prescribed values from a state with non-zero values on the prescribed unknowns
         b.update(0.0)
@@ -338,6 +348,15 @@ def case_linear(fam, rep):
                 run.compare("newton.linear", "clause=partitioned-solve residual-given=%s" % with_r, max(maxabs(du[d1] - du1_ref), maxabs(du[d0] - e0)) / max(maxabs(du1_ref), 1e-300), 1e-9,
                             "solve.partition / solve.solve (direct linear analysis %s a residual vector): the increment does not solve the reduced system" % ("with" if with_r else "without"),
                             unit="solve:direct:%s" % ("with-r" if with_r else "without-r"), config=("direct-solve", fam, with_r))
+            # the public one-call form of the same solve (tools.solve: K, f, field, dof0, dof1, offsets, ext0 -> list of field increments)
+            offs = np.cumsum([f_.values.size for f_ in fd.fields])[:-1]
+            dparts = fem.tools.solve(Kd, rd, fd, d0, d1, offs, e0)
+            dut = np.concatenate([np.asarray(a).ravel() for a in dparts])
+            rhs = -(Kdd[np.ix_(d1, d0)] @ e0) - rd[d1]
+            du1_ref = np.linalg.solve(Kdd[np.ix_(d1, d1)], rhs)
+            run.compare("newton.linear", "clause=partitioned-solve call=tools.solve", max(maxabs(dut[d1] - du1_ref), maxabs(dut[d0] - e0)) / max(maxabs(du1_ref), 1e-300), 1e-9,
+                        "tools.solve(K, f, field, dof0, dof1, offsets, ext0): the increments do not solve the reduced system / set the prescribed increments",
+                        unit="solve:tools.solve", config=("tools.solve", fam))
             # Laplace (scalar) problem through the x0/fun/jac call style
             reg = gen.make_region(fam, mesh)
             sf = fem.FieldContainer([fem.Field(reg, dim=1)])
@@ -366,9 +385,16 @@ def case_failure(mode, rep):
             field = problems.field_for(fam, mesh, kind)
             umat = umat_for(rng, "OgdenRoxburgh")
             body = fem.SolidBody(umat, field)
-            # give the body a non-trivial committed history first
+            # the commit protocol concerns every item of the list: the body with history behind a load, two bodies with history
+            items = [body]
+            if rep % 3 == 1:
+                items = [fem.SolidBodyForce(field, values=[1e-3 / L[0]] * mesh.dim), body]
+            elif rep % 3 == 2:
+                items = [body, fem.SolidBody(fem.OgdenRoxburgh(fem.NeoHooke(mu=0.5, bulk=2.0), r=2.0, m=0.8, beta=0.2), field)]
+            run.units["failure:items=%d:%s" % (len(items), type(items[0]).__name__)] += 1
+            # give the bodies a non-trivial committed history first
             bounds, lc = fem.dof.uniaxial(field, clamped=True, move=0.15 * L[0])
-            fem.newtonrhapson(items=[body], verbose=False, **lc)
+            fem.newtonrhapson(items=items, verbose=False, **lc)
             if mode == "maxiter":
                 bounds["move"].update(0.9 * L[0])
                 maxiter = int(rng.integers(1, 3))
@@ -378,7 +404,7 @@ def case_failure(mode, rep):
             dof0, dof1 = fem.dof.partition(field, bounds)
             ext0 = fem.dof.apply(field, bounds, dof0)
             try:
-                res = fem.newtonrhapson(items=[body], dof0=dof0, dof1=dof1, ext0=ext0, maxiter=maxiter, verbose=False)
+                res = fem.newtonrhapson(items=items, dof0=dof0, dof1=dof1, ext0=ext0, maxiter=maxiter, verbose=False)
             except ValueError as e:
                 run.ok("newton.failure", unit="failure:" + mode, config=("failure", mode, fam),
                        sample={"failure": mode, "maxiter": maxiter, "raised": str(e).strip()[:60]})
@@ -423,8 +449,8 @@ SPEC = {
                        "success:boundary-honoured:field2", "styles:no-ext0", "styles:constraint", "styles:converged-at-maxiter", "styles:parallel+solver",
                        "styles:no-items", "styles:array-newton", "styles:array-newton-raises", "success:continuation", "success:unload-to-zero", "linear:unload-one-iteration", "success:prescribed-values",
                        "success:reported-residual", "success:reassembly", "success:reassembly-settled", "success:fun", "success:commit",
-                       "solve:reduced-system", "solve:prescribed-increment", "linear:one-iteration", "linear:one-solve-counted", "linear:overlapping-boundaries", "solve:direct:without-r", "solve:direct:with-r", "failure:maxiter",
-                       "failure:no-commit", "failure:raises:ValueError"],
+                       "solve:reduced-system", "solve:prescribed-increment", "linear:one-iteration", "linear:one-solve-counted", "linear:overlapping-boundaries", "solve:direct:without-r", "solve:direct:with-r", "solve:tools.solve", "success:reported-norm", "success:continuation:items-only", "success:continuation:x0=result", "success:continuation:x0=own-container", "failure:maxiter",
+                       "failure:no-commit", "failure:raises:ValueError", "failure:items=2:SolidBodyForce", "failure:items=2:SolidBody", "failure:items=1:SolidBody"],
     "rule": ("boundary value problems on seeded interior-distorted box meshes (9 element families; 3D, plane strain, axisymmetric, mixed "
              "u/p/J, nearly-incompressible body; body force, point load, follower pressure), random tolerance 1e-12..1e-4, continuation "
              "from a converged state in both call styles, linear problems, infeasible jumps with maxiter 1..2 and inverting jumps (NaN); "
